@@ -18,6 +18,17 @@ def main():
     args = ap.parse_args()
     logging.disable(logging.CRITICAL)
     pid = args.pid.upper()
+    # last resort against a check that never ends (library code looping under the harness): a machinery error, never a verdict
+    import threading
+    limit = int(os.environ.get("VERIF_WALL_LIMIT", "3600" if args.tier == "quick" else "28800"))
+
+    def give_up():
+        print(f"MACHINERY-ERROR: {pid} did not finish within {limit} s", file=sys.stderr)
+        sys.stderr.flush()
+        os._exit(2)
+    wd = threading.Timer(limit, give_up)
+    wd.daemon = True
+    wd.start()
     try:
         mod = importlib.import_module(f"harness.{pid.lower()}")
     except ImportError as exc:
